@@ -51,7 +51,13 @@ def jobs(tier):
     if tier == "thorough":
         for poll in (False, True):
             js.append(dict(name="%s:write:r1:k1:line" % ("poll" if poll else "select"), poll=poll, mode="write", nreq=1, k=1, P=1, gran="line", sizes=SIZES))
-    return js
+    out = []
+    for j in js:
+        if j["k"] >= 2 or j["nreq"] >= 2:
+            out += common.shard(common.shard([j], "acc0", 6 if j["mode"] == "write_block" else 3), "sz0", len(j["sizes"]))
+        else:
+            out.append(j)
+    return out
 
 
 def make_inputs(job):
